@@ -9,7 +9,8 @@ CONSTANTS MCShapes,     \* set of shape names (CopyShapes)
           MCPairs,      \* subset of {"samerepo","samereg","tworeg","reg2dir","dir2reg","dir2dir"}
           MCOpts,       \* set of option records (Opt below)
           MCFeats,      \* set of feature records (Feat below)
-          MCInit,       \* "all": every subset of the shape's objects pre-exists; "corners": {}, all, manifests, blobs
+          MCInit,       \* "all": every subset of the shape's objects pre-exists; "corners": {}, everything,
+                        \* the manifests, the blobs, everything but the root; "empty": {}
           MCTag0,       \* subset of {"none","stale","same"}
           MCByDigest,   \* subset of BOOLEAN (source named by digest)
           MCTgtByDigest,
@@ -37,9 +38,12 @@ FeatNoHeadDigest == Feat(TRUE, FALSE, TRUE, TRUE)
 FeatNoRefApi == Feat(TRUE, TRUE, FALSE, FALSE)
 FeatNoRefApiTgt == Feat(TRUE, TRUE, TRUE, FALSE)
 
+ASSUME Reduce => (MaxFaults = 0 /\ ~AllowCancel /\ Cap = 0)
+
 Universe(s) == Shapes[s].blobs \cup DOMAIN Shapes[s].mans
 InitSets(s, p) == IF p = "samerepo" THEN {{}}
                   ELSE IF MCInit = "all" THEN SUBSET Universe(s)
+                  ELSE IF MCInit = "empty" THEN {{}}
                   ELSE {{}, Universe(s), DOMAIN Shapes[s].mans, Shapes[s].blobs, Universe(s) \ {Shapes[s].root}}
 AllConfs ==
   {[shape |-> s, pair |-> p, mount |-> f.mount, headDigest |-> f.headDigest, refApiSrc |-> f.refApiSrc,
@@ -95,6 +99,13 @@ TypeOK == /\ \A i \in Ids : tasks[i].pend >= 0 /\ tasks[i].par < i
           /\ \A e1, e2 \in seen : (e1.node = e2.node /\ e1.tag = e2.tag) => e1 = e2
 Termination == <>(ret # "" \/ crashed)
 \* option / feature sets referenced from the cfg files
-MCOptsSmoke == {OptDefault}
-MCFeatsSmoke == {FeatAll}
+MCOptsDefault == {OptDefault}
+MCOptsCore == {OptDefault, OptForce, OptRefs, OptDTags}
+MCOptsAll == {OptDefault, OptForce, OptFast, OptPlats, OptRefs, OptRefsSbom, OptRefsForce, OptRefsFast, OptDTags,
+              OptRefsDTags, OptExt}
+MCOptsRefs == {OptRefs, OptRefsDTags}
+MCFeatsDefault == {FeatAll}
+MCFeatsCore == {FeatAll, FeatNoRefApi}
+MCFeatsMount == {FeatAll, FeatNoMount}
+MCFeatsAll == {FeatAll, FeatNoMount, FeatNoHeadDigest, FeatNoRefApi, FeatNoRefApiTgt}
 =============================================================================
